@@ -43,6 +43,13 @@ PROP = [  # (substring of the subject, property, what failed)
     ("exponentiation with a NaN exponent", "C01", "`let e = NaN; 1 ** e` evaluated to 1 (spec: NaN)"),
     ("VM division fast path returned +0", "C01", "`let a = 0, b = -1; 1 / (a / b)` in a function printed Infinity (div_fast returned integer 0 for 0 / -n)"),
     ("inline cache remembered a slot that user code had invalidated", "C02", "`Object.defineProperty(P.prototype,'a',{get(){ delete P.prototype.a; return 1 },configurable:true}); rd(o); rd(o); rd(o)` panicked (index out of bounds): the slot was cached after the getter had deleted the property"),
+    ("set_length fast path kept elements", "C14", "`Array.of.call(function(){return [1,2,3,4,5]}, 9)` returned length 1 with keys 0..4 (species results of slice/splice/concat likewise)"),
+    ("SetPropertyByValue fast path ignored the receiver", "C14", "`super[i] = v` with an array as the home object's prototype wrote into the prototype array"),
+    ("labelled break out of a nested iterator loop", "C03", "`for (k of [0,1]) { B: for (x of [7,8]) { for (v of [1]) break B } }` looped forever: the inner iterator record stayed on the frame's iterator stack (C01 class label-jump-through-nested-iterator-loops, C03 class iterator-stack-depth-merge)"),
+    ("at overflowed on i64::MIN", "C02", "`\"a\".at(-1e30)` and `[1].at(-1e30)` panicked (overflow checks) / indexed out of range"),
+    ("stored entries that an accessor had made stale", "C06", "a getter that memoises on the receiver or turns its property into a data property: cached reads kept calling the getter / called the stored function / a cached strict set panicked"),
+    ("linking a source-text module left its frame", "C07", "every linked source-text module left 2 + register_count values on the VM stack"),
+    ("engine error raised while an exception was pending", "C07", "`try { throw 1 } catch (e) { throw 2 } finally { for(;;){} }` under a loop limit left pending_exception set; a later generator.return() threw the stale 2"),
     ("AST printer", "C19", None),
     ("Map/Set clear() under a live iterator", "C20", "`m.clear(); m.set(4,4); it.next()` on a running iterator reported done (spec/V8: 4) — deterministic deviation found by the C20 model refinement"),
     ("for_each_native looped forever", "C20", "JsMap/JsSet::for_each_native hung on a Map that had a deletion while an iterator was alive"),
